@@ -235,7 +235,7 @@ func runCurve() {
 	if thorough {
 		na = 24
 	}
-	if prop == "C10" || prop == "C09" || prop == "" {
+	if prop == "C10" || prop == "C09" || prop == "C16" || prop == "" {
 		for i := 0; i < na; i++ {
 			k, t := r.Scalar(), r.Intn(8)
 			if i == 1 {
